@@ -2358,9 +2358,12 @@ private:
             spin_mutex::scoped_lock lock(my_mutex);
             --my_tries;
             if (check_conditions() && is_graph_active(this->my_graph)) {
+                // The message t is rejected and stays with its sender: returning a task here would report it
+                // as accepted although nobody keeps it. The forward task only serves the registered predecessors.
                 d1::small_object_allocator allocator{};
                 typedef forward_task_bypass<limiter_node<T, DecrementType>> task_type;
-                rtask = allocator.new_object<task_type>(my_graph, allocator, *this);
+                graph_task* ftask = allocator.new_object<task_type>(my_graph, allocator, *this);
+                spawn_in_graph_arena(graph_reference(), *ftask);
             }
         }
         else {
